@@ -214,66 +214,64 @@ theorem value_roundtrip (v : Value) (h : ValueOk v) : decValue (itemValue v) = .
 theorem value_roundtrip_bytes (v : Value) (h : ValueOk v) (hw : Cbor.WF (itemValue v)) :
     decValueBytes (encValueBytes v) = .ok (normValue v) := decValueBytes_enc v h hw
 
-/-- Python `==` (`Value.__eq__` / `MultiAsset.__eq__` / `Asset.__eq__` compare the stored dicts; they do not
-normalise): the decoded value is `==` to the normalised original … -/
-theorem value_roundtrip_pyeq_normalised (v : Value) (hw : MultiAsset.WF v.ma) :
-    Value.eq (normValue v) ⟨v.coin, MultiAsset.normalize v.ma⟩ = true := value_eq_normalized v hw
+/-- **Python `==`**: `Value.__eq__` / `MultiAsset.__eq__` / `Asset.__eq__` compare contents component-wise (an absent name
+counts as 0, an absent policy as an empty `Asset`: `C05.eq_iff`), and normalising / sorting does not change the content:
+the decoded value is `==` to the original — FULL, for every well-formed value, stored zeros and empty policies included.
+(Before `==` was made component-wise this was false: `Value(5, {p: {n: 0}})` decodes to `Value(5)`, then unequal.) -/
+theorem value_roundtrip_pyeq (v : Value) (h : ValueOk v) :
+    ∃ v', decValue (itemValue v) = .ok v' ∧ Value.eq v' v = true :=
+  ⟨normValue v, decValue_itemValue v h, value_eq_original v (maOk_wf v.ma h.ma)⟩
 
-/-- … and `==` to the original itself exactly when the original stores no zero quantity and no empty policy -/
-theorem value_roundtrip_pyeq_iff (v : Value) (hw : MultiAsset.WF v.ma) :
-    Value.eq (normValue v) v = true ↔ MultiAsset.normalize v.ma = v.ma := value_eq_original_iff v hw
-
-/-- the statement "decode ∘ encode is the identity under `==` for every well-formed value" is FALSE of the code
-(kept as the goal; `value_roundtrip_pyeq_iff` is the exact region where it holds) -/
-def value_roundtrip_pyeq_goal : Prop :=
-  ∀ v : Value, ValueOk v → ∃ v', decValue (itemValue v) = .ok v' ∧ Value.eq v' v = true
-
+/-- the former counterexample (a stored zero quantity), as a regression example -/
 def exZeroQty : Value := ⟨5, [(List.replicate 28 1, [([110], 0)])]⟩
-
-theorem value_roundtrip_pyeq_counterexample : ¬ value_roundtrip_pyeq_goal := by
-  intro h
-  have hok : ValueOk exZeroQty := valueOkB_sound _ (by decide)
-  obtain ⟨v', h1, h2⟩ := h exZeroQty hok
-  rw [value_roundtrip exZeroQty hok] at h1
-  cases h1
-  revert h2
-  decide
+example : (match decValueBytes (encValueBytes exZeroQty) with
+    | .ok v => v.ma == [] && Value.eq v exZeroQty && Value.eq exZeroQty v
+    | _ => false) = true := by decide +kernel
 
 /-- **re-encoding the decoded value gives the same bytes** — for EVERY value (no hypothesis) -/
 theorem value_reencode (v : Value) : encValueBytes (normValue v) = encValueBytes v := by
   unfold encValueBytes; rw [itemValue_normValue]
 
-/-- **`TransactionOutput`: decode ∘ encode** for every well-formed output whose datum is a hash or inline, not both
-(`NotBoth`): the decoded output equals the original in address, datum hash, inline datum and script, holds the
-normalised amount, and its `post_alonzo` flag is "flag set, no inline datum, no script".  `L` are the leaf codecs
-(address, inline datum, native script), assumed to restore what they wrote (`Leaves.Lawful`). -/
+/-- **`TransactionOutput`: decode ∘ encode, FULL** — for every well-formed output whose datum is a hash or inline, not
+both (`NotBoth`): decoding the encoding of the CONSTRUCTED output (`normOutput o`: `__post_init__` sets `post_alonzo`
+when an inline datum or a script is present) returns an output equal to it in EVERY field, `post_alonzo` included; the
+amount is the normalised amount, which is `==` to the original amount.  `L` are the leaf codecs (address, inline datum,
+native script), assumed to restore what they wrote (`Leaves.Lawful`). -/
 theorem output_roundtrip {A D N : Type} (L : Leaves A D N) (hL : L.Lawful) (o : Output A D N) (h : OutputOk L o)
     (hnb : NotBoth o) :
-    ∃ o', decOutput L (itemOutput L o) = .ok o' ∧
-      o'.address = o.address ∧ o'.amount = normValue o.amount ∧ o'.datumHash = o.datumHash ∧ o'.datum = o.datum ∧
-      o'.script = o.script ∧ o'.postAlonzo = (o.postAlonzo && o.datum.isNone && o.script.isNone) :=
-  ⟨decodedOutput o, decOutput_itemOutput L hL o h, decodedOutput_fields o hnb⟩
+    ∃ o', decOutput L (itemOutput L (normOutput o)) = .ok o' ∧
+      o'.address = (normOutput o).address ∧ o'.amount = normValue (normOutput o).amount ∧
+      Value.eq o'.amount (normOutput o).amount = true ∧ o'.datumHash = (normOutput o).datumHash ∧
+      o'.datum = (normOutput o).datum ∧ o'.script = (normOutput o).script ∧
+      o'.postAlonzo = (normOutput o).postAlonzo := by
+  refine ⟨decodedOutput (normOutput o), decOutput_itemOutput L hL _ (outputOk_normOutput L o h), ?_⟩
+  rw [decodedOutput_constructed _ (constructed_normOutput o) (notBoth_normOutput o hnb)]
+  exact ⟨rfl, rfl, value_eq_original _ (maOk_wf _ h.amount.ma), rfl, rfl, rfl, rfl⟩
 
-/-- … for EVERY well-formed output, `NotBoth` or not: the result is `decodedOutput o` -/
+/-- … the same for any output that IS constructed (its flag is set whenever it carries an inline datum or a script) -/
+theorem output_roundtrip_constructed {A D N : Type} (L : Leaves A D N) (hL : L.Lawful) (o : Output A D N)
+    (h : OutputOk L o) (hc : Constructed o) (hnb : NotBoth o) :
+    decOutput L (itemOutput L o) = .ok { o with amount := normValue o.amount } := by
+  rw [decOutput_itemOutput L hL o h, decodedOutput_constructed o hc hnb]
+
+/-- … and for EVERY well-formed output, constructed or not, `NotBoth` or not: the result is `decodedOutput o` -/
 theorem output_roundtrip_general {A D N : Type} (L : Leaves A D N) (hL : L.Lawful) (o : Output A D N) (h : OutputOk L o) :
     decOutput L (itemOutput L o) = .ok (decodedOutput o) := decOutput_itemOutput L hL o h
 
-/-- **the recorded finding KF-C01-post-alonzo-flag, as an exact condition**: the flag of the decoded output differs from
-the original flag iff the original carries an inline datum or a script while its flag is SET (the decoder recomputes the
-flag as "no inline datum and no script"; with the flag unset such an output round-trips exactly) -/
-theorem output_flag_exception_iff {A D N : Type} (L : Leaves A D N) (hL : L.Lawful) (o : Output A D N) (h : OutputOk L o)
-    (hnb : NotBoth o) :
-    ∃ o', decOutput L (itemOutput L o) = .ok o' ∧
-      (o'.postAlonzo ≠ o.postAlonzo ↔ (o.postAlonzo = true ∧ (o.datum.isSome = true ∨ o.script.isSome = true))) :=
-  ⟨decodedOutput o, decOutput_itemOutput L hL o h, decodedOutput_flag_ne_iff o hnb⟩
+/-- the constructor's normalisation is idempotent, and the decoder returns constructed outputs -/
+theorem output_norm_idempotent {A D N : Type} (o : Output A D N) : normOutput (normOutput o) = normOutput o :=
+  normOutput_idem o
+theorem output_decoded_constructed {A D N : Type} (o : Output A D N) : Constructed (decodedOutput o) := by
+  obtain ⟨addr, amt, dh, dat, scr, pa⟩ := o
+  cases dh <;> cases dat <;> cases scr <;> cases pa <;> simp [Constructed, normOutput, decodedOutput, mapForm]
 
 /-- outside `NotBoth` (datum hash AND inline datum, which `TransactionOutput` does not refuse): the hash is written, the
 inline datum is lost -/
 theorem output_both_datums_drops_inline {A D N : Type} (o : Output A D N) (h : o.datumHash.isSome = true) :
     (decodedOutput o).datum = Option.none := decodedOutput_both o h
 
-/-- the full statement "every field but `post_alonzo` survives, for every well-formed output" is FALSE of the code
-(goal kept; `output_roundtrip` is the partial result under `NotBoth`) -/
+/-- the full statement "the inline datum survives, for every well-formed output" is FALSE of the code (recorded finding
+KF-C01-both-datums; goal kept; `output_roundtrip` is the partial result under `NotBoth`) -/
 def output_roundtrip_goal : Prop :=
   ∀ (L : Leaves Bytes Nat Nat), L.Lawful → ∀ o : Output Bytes Nat Nat, OutputOk L o →
     ∃ o', decOutput L (itemOutput L o) = .ok o' ∧ o'.datum = o.datum
@@ -346,14 +344,14 @@ example :
     (match decValueBytes (encValueBytes exValue) with
       | .ok v => v.coin == 1500000 && v.ma.map (fun p => (p.1.head!, p.2.length)) == [(1, 2), (2, 2)] &&
           Dict.getD (Dict.getD v.ma (List.replicate 28 1) []) [1] 0 == 3541774862152233910272 &&
-          encValueBytes v == encValueBytes exValue && !Value.eq v exValue &&
+          encValueBytes v == encValueBytes exValue && Value.eq v exValue && Value.eq exValue v &&
           Value.eq v ⟨exValue.coin, MultiAsset.normalize exValue.ma⟩
       | _ => false) = true := by decide +kernel
 example : ¬ (MultiAsset.normalize exValue.ma = exValue.ma) := by decide
 
-/-- a map-form output with an inline datum (flag unset): round-trips exactly but for the normalised amount -/
+/-- constructor arguments of a map-form output with an inline datum (flag not given): the constructed output has the flag -/
 def exInline : Output Bytes Nat Nat := ⟨exAddr, exValue, Option.none, some 42, Option.none, false⟩
-/-- … and the recorded exception: a script with the flag set -/
+/-- … and the witness of the repaired finding KF-C01-post-alonzo-flag: a script with the flag set -/
 def exFlag : Output Bytes Nat Nat := ⟨exAddr, ⟨2000000, []⟩, Option.none, Option.none, some (.plutus 2 [1, 2, 3]), true⟩
 
 theorem exInline_ok : OutputOk exLeaves exInline := by
@@ -362,20 +360,26 @@ theorem exInline_ok : OutputOk exLeaves exInline := by
   · intro d e; cases e; simp [exLeaves, natLeaf, Cbor.WF]
   · intro s e; cases e
 
-example : ∃ o', decOutput exLeaves (itemOutput exLeaves exInline) = .ok o' ∧ o'.datum = some 42 ∧ o'.postAlonzo = false := by
-  obtain ⟨o', h1, _, _, _, h4, _, h6⟩ := output_roundtrip exLeaves exLeaves_lawful exInline exInline_ok (by decide)
-  exact ⟨o', h1, h4, h6⟩
+example : (normOutput exInline).postAlonzo = true ∧ (normOutput exFlag).postAlonzo = exFlag.postAlonzo := by decide
+example : Constructed exFlag := rfl
+example : ∃ o', decOutput exLeaves (itemOutput exLeaves (normOutput exInline)) = .ok o' ∧ o'.datum = some 42 ∧
+    o'.postAlonzo = true ∧ Value.eq o'.amount exValue = true := by
+  obtain ⟨o', h1, _, _, h3, _, h5, _, h7⟩ := output_roundtrip exLeaves exLeaves_lawful exInline exInline_ok (by decide)
+  exact ⟨o', h1, h5, h7, h3⟩
 example :
-    (match decOutputBytes exLeaves (encOutputBytes exLeaves exInline) with
-      | .ok o => o.datum == some 42 && o.postAlonzo == false && o.datumHash == Option.none && o.address == exAddr &&
+    (match decOutputBytes exLeaves (encOutputBytes exLeaves (normOutput exInline)) with
+      | .ok o => o.datum == some 42 && o.postAlonzo == true && o.datumHash == Option.none && o.address == exAddr &&
+          Value.eq o.amount exValue &&
           encOutputBytes exLeaves o == encOutputBytes exLeaves exInline
       | _ => false) = true := by decide +kernel
--- KF-C01-post-alonzo-flag: the concrete counterexample to flag preservation
-example : (decodedOutput exFlag).postAlonzo ≠ exFlag.postAlonzo := by decide
+-- regression example on the old witness of KF-C01-post-alonzo-flag (script, flag set): the flag now survives; and an
+-- output whose flag was cleared after construction is written in the map form and comes back with the flag set
+example : (decodedOutput exFlag).postAlonzo = exFlag.postAlonzo := by decide
 example :
     (match decOutputBytes exLeaves (encOutputBytes exLeaves exFlag) with
-      | .ok o => o.postAlonzo == false && encOutputBytes exLeaves o == encOutputBytes exLeaves exFlag
+      | .ok o => o.postAlonzo == true && o.script.isSome && encOutputBytes exLeaves o == encOutputBytes exLeaves exFlag
       | _ => false) = true := by decide +kernel
+example : (decodedOutput ({ exFlag with postAlonzo := false } : Output Bytes Nat Nat)).postAlonzo = true := by decide
 
 /-- a body of the REAL table, built from the table's own field list so that a new optional field does not disturb it:
 tagged inputs, no outputs, a fee, untagged required signers, every other field `None` -/
@@ -434,13 +438,13 @@ end Pyc.C01
 #print axioms Pyc.C01.coded_union_typed
 #print axioms Pyc.C01.value_roundtrip
 #print axioms Pyc.C01.value_roundtrip_bytes
-#print axioms Pyc.C01.value_roundtrip_pyeq_normalised
-#print axioms Pyc.C01.value_roundtrip_pyeq_iff
-#print axioms Pyc.C01.value_roundtrip_pyeq_counterexample
+#print axioms Pyc.C01.value_roundtrip_pyeq
 #print axioms Pyc.C01.value_reencode
 #print axioms Pyc.C01.output_roundtrip
 #print axioms Pyc.C01.output_roundtrip_general
-#print axioms Pyc.C01.output_flag_exception_iff
+#print axioms Pyc.C01.output_roundtrip_constructed
+#print axioms Pyc.C01.output_norm_idempotent
+#print axioms Pyc.C01.output_decoded_constructed
 #print axioms Pyc.C01.output_both_datums_drops_inline
 #print axioms Pyc.C01.exLeaves_lawful
 #print axioms Pyc.C01.output_roundtrip_counterexample
